@@ -213,6 +213,10 @@ def make_fs(tj, **kw):
             sib.get_filename((dt.datetime(2001, 2, 3, 4, 5, 6), dt.datetime(2001, 2, 3, 5, 5, 6)))
         except Exception:
             pass
+        if ph:
+            # ... and the user states one pattern of the original once more (a no-op for its meaning)
+            first = sorted(ph)[0]
+            fs.set_placeholders(**{first: ph[first]})
     return fs
 
 
